@@ -26,6 +26,7 @@ import (
 	nodetls "github.com/hashicorp/nodeenrollment/tls"
 	"github.com/hashicorp/nodeenrollment/types"
 	"google.golang.org/protobuf/proto"
+	"google.golang.org/protobuf/types/known/structpb"
 	"google.golang.org/protobuf/types/known/timestamppb"
 )
 
@@ -264,5 +265,76 @@ func TestKnownFinding_F12_IntervalWithinNotBeforeSkewOfSpanResetsTrust(t *testin
 		t.Logf("the previous next root was promoted after an interval of %v (< span %v): move the finding to 'fixed'", interval, span)
 	} else {
 		t.Logf("KNOWN FINDING C09/F12 still present: rotation interval %v is shorter than the validity span %v, yet both roots were replaced (the next root minted %v earlier had expired)", interval, span, interval)
+	}
+}
+
+// rotationFixture: a server with one enrolled node (record state {"id":"w1"}) and the node's credentials.
+func rotationFixture(t *testing.T) (*inmem.Storage, *types.NodeCredentials) {
+	st := server(t)
+	nd, _ := inmem.New(ctx)
+	creds, err := types.NewNodeCredentials(ctx, nd)
+	if err != nil {
+		t.Fatal(err)
+	}
+	req, _ := creds.CreateFetchNodeCredentialsRequest(ctx)
+	state, _ := structpb.NewStruct(map[string]any{"id": "w1"})
+	if _, err := registration.AuthorizeNode(ctx, st, req, nodeenrollment.WithState(state)); err != nil {
+		t.Fatal(err)
+	}
+	resp, err := registration.FetchNodeCredentials(ctx, st, req)
+	if err != nil {
+		t.Fatal(err)
+	}
+	if creds, err = creds.HandleFetchNodeCredentialsResponse(ctx, nd, resp); err != nil {
+		t.Fatal(err)
+	}
+	return st, creds
+}
+
+// F13 (fixed by a037849): a rotating node attaches re-wrapped registration info, sealed with its own
+// current keys and naming its own record, to the embedded fetch request; the fetch step then
+// authorized the new key a second time and stored it without the state carried over.
+func TestF13_RotationKeepsStateWithRewrappedInfo(t *testing.T) {
+	st, cur := rotationFixture(t)
+	nd2, _ := inmem.New(ctx)
+	next, _ := types.NewNodeCredentials(ctx, nd2)
+	inner, _ := next.CreateFetchNodeCredentialsRequest(ctx)
+	blob, err := nodeenrollment.EncryptMessage(ctx, &types.WrappingRegistrationFlowInfo{CertificatePublicKeyPkix: next.CertificatePublicKeyPkix, Nonce: next.RegistrationNonce}, cur)
+	if err != nil {
+		t.Fatal(err)
+	}
+	curId, _ := nodeenrollment.KeyIdFromPkix(cur.CertificatePublicKeyPkix)
+	inner.RewrappedWrappingRegistrationFlowInfo, inner.RewrappingKeyId = blob, curId
+	ct, _ := nodeenrollment.EncryptMessage(ctx, inner, cur)
+	if _, err := rotation.RotateNodeCredentials(ctx, st, &types.RotateNodeCredentialsRequest{CertificatePublicKeyPkix: cur.CertificatePublicKeyPkix, EncryptedFetchNodeCredentialsRequest: ct}); err != nil {
+		t.Fatal(err)
+	}
+	newId, _ := nodeenrollment.KeyIdFromPkix(next.CertificatePublicKeyPkix)
+	rec, err := types.LoadNodeInformation(ctx, st, newId)
+	if err != nil {
+		t.Fatal(err)
+	}
+	if rec.State == nil || rec.State.Fields["id"].GetStringValue() != "w1" {
+		t.Fatalf("the new record's state is %v, want the rotated record's {id: w1}", rec.State)
+	}
+}
+
+// F14 (fixed by 1723520): a rotation refused at its fetch step (here: re-wrapped info that does not
+// decrypt) returned an error but left the new key registered.
+func TestF14_RefusedRotationRegistersNothing(t *testing.T) {
+	st, cur := rotationFixture(t)
+	nd2, _ := inmem.New(ctx)
+	next, _ := types.NewNodeCredentials(ctx, nd2)
+	inner, _ := next.CreateFetchNodeCredentialsRequest(ctx)
+	curId, _ := nodeenrollment.KeyIdFromPkix(cur.CertificatePublicKeyPkix)
+	inner.RewrappedWrappingRegistrationFlowInfo, inner.RewrappingKeyId = []byte("does not decrypt"), curId
+	ct, _ := nodeenrollment.EncryptMessage(ctx, inner, cur)
+	before, _ := st.List(ctx, (*types.NodeInformation)(nil))
+	if _, err := rotation.RotateNodeCredentials(ctx, st, &types.RotateNodeCredentialsRequest{CertificatePublicKeyPkix: cur.CertificatePublicKeyPkix, EncryptedFetchNodeCredentialsRequest: ct}); err == nil {
+		t.Fatal("the rotation was honoured")
+	}
+	after, _ := st.List(ctx, (*types.NodeInformation)(nil))
+	if len(after) != len(before) {
+		t.Fatalf("a refused rotation changed the set of node records: %v -> %v", before, after)
 	}
 }
